@@ -6,6 +6,8 @@ import IgVerif.Gen.C19Proto
 import IgVerif.Model.Expr
 import IgVerif.Model.CondC
 import IgVerif.Model.Path
+import IgVerif.Model.Float
+import IgVerif.Gen.C18Powers
 /-! `igdriver <model>`: reads one op per line on stdin, prints one answer per line.
 Byte strings are hex ("-" = empty). -/
 open IgVerif
@@ -379,6 +381,20 @@ def pathStep (_ : Unit) (toks : List String) : IO (Unit × String) := do
     return ((), hex (stringToBytes (pathToString (Path.stdC (pathOfString full)))))
   | _ => return ((), "bad-op")
 
+def floatStep (_ : Unit) (toks : List String) : IO (Unit × String) := do
+  match toks with
+  | ["dtoa", b] =>
+    let bits := b.toNat?.getD 0
+    let neg := bits ≥ 2 ^ 63
+    let s := Fl.pdtoa Gen.cachedPowers (bits % 2 ^ 63)
+    return ((), (if neg then "-" else "") ++ String.ofList s)
+  | ["strtod", h] =>
+    let s := (bytesToString (unhex h)).toList
+    match Fl.scanDecimal s with
+    | some (m, e) => return ((), toString (Fl.rneDec m e))
+    | none => return ((), "none")
+  | _ => return ((), "bad-op")
+
 def main (args : List String) : IO UInt32 := do
   let stdin ← IO.getStdin
   match args with
@@ -388,4 +404,5 @@ def main (args : List String) : IO UInt32 := do
   | ["expr"] => loop stdin exprStep (); return 0
   | ["cond"] => loop stdin condStep (); return 0
   | ["path"] => loop stdin pathStep (); return 0
+  | ["float"] => loop stdin floatStep (); return 0
   | _ => IO.eprintln "usage: igdriver <model>"; return 2
